@@ -80,11 +80,7 @@ impl RemSpecImpl<&BigInt> for &BigInt {
 }
 impl Rem<&BigInt> for &BigInt {
     type Output = BigInt;
-    //@ assume BigInt:Rem<&BigInt>for&BigInt : leaf with scalar fast paths (to_u32/to_i32) in src/bigint/division.rs; unit pending. Contract: truncation remainder
-    #[verifier::external_body]
-    fn rem(self, other: &BigInt) -> (r: BigInt)
-        ensures mp() ==> other.iv() != 0, r.wfi(), exists|q: int| is_trunc(self.iv(), other.iv(), q, r.iv())
-    { unimplemented!() }
+//@ stub i_divops/rem_rr
 }
 
 impl BigInt {
